@@ -208,6 +208,7 @@ def verify(contract, case=None, max_seconds=None):
         res.seconds = time.time() - t0
         return res
     worklist = [[]]
+    refuted_count = {}
     while worklist:
         if max_seconds and time.time() - t0 > max_seconds:
             res.undecided.append(("time budget of unit exhausted with %d paths pending" % len(worklist), []))
@@ -255,8 +256,24 @@ def verify(contract, case=None, max_seconds=None):
         except Exception as e:  # noqa: checker crash on this path
             res.crash = "".join(traceback.format_exception(type(e), e, e.__traceback__)[-6:])
             res.undecided.append(("checker error: %r" % (e,), list(st.trace)))
-        res.obligations.extend(st.obligations)
+        # the same obligation is reported once per path
+        seen_names = set()
+        for ob in st.obligations:
+            if ob.status != "discharged":
+                if (ob.name, ob.status) in seen_names:
+                    continue
+                seen_names.add((ob.name, ob.status))
+            res.obligations.append(ob)
         worklist.extend(st.alternatives)
+        for nm, status in seen_names:
+            if status == "refuted":
+                refuted_count[nm] = refuted_count.get(nm, 0) + 1
+        if worklist and refuted_count and max(refuted_count.values()) >= 12 * len(refuted_count) and sum(refuted_count.values()) >= 12:
+            # the verdict of this unit is settled (a refuted obligation on a dozen paths): the
+            # remaining paths are not explored
+            res.undecided.append(("exploration of the unit stopped after %d refutations, %d paths pending" % (
+                sum(refuted_count.values()), len(worklist)), []))
+            break
     res.seconds = time.time() - t0
     res.solver_checks = engine.stats.checks
     res.solver_seconds = engine.stats.seconds
@@ -269,6 +286,9 @@ def check_frame(ctx, contract):
     """frame conditions: writes outside `modifies`, module-global writes, stdout, hash order"""
     st = ctx.st
     self_obj = ctx.data.get("self")
+    dc = st.ghost.get("decimal-context", "ambient")
+    if dc != "ambient":
+        ctx.fail("frame/decimal-context", "the function is left with the thread's decimal context replaced by %s" % dc)
     for ev in st.events:
         kind = ev[0]
         if kind == "global-write":
@@ -277,7 +297,9 @@ def check_frame(ctx, contract):
             obj, attr = ev[1], ev[2]
             if contract.modifies is not None and obj is self_obj and attr not in contract.modifies:
                 known = getattr(obj, "assumed_fields", None)
-                if attr in getattr(obj, "extra_fields", ()):
+                from .extra import is_further_field
+
+                if attr in getattr(obj, "extra_fields", ()) or is_further_field(obj, attr):
                     # a field outside the representation invariant whose contents are derived
                     # from the code (pyvc.extra): writing it is no frame violation by itself --
                     # the accessor contracts are verified from every state such writes produce
